@@ -461,6 +461,16 @@ pub fn run(tier: Tier) -> i32 {
     let st = run_space(chains.len(), |i| check_chain(chains[i].0, &chains[i].1).unwrap_or(CaseResult { case_hash: hash64(&("na-chain", i)), nontrivial: false, outcome_hash: 0, executions: 0, violation: None }));
     rep.sample(json!({"leg": "chains", "links": chains[chains.len() / 2].1.iter().map(|l| form_class(&l.2)).collect::<Vec<_>>()}));
     rep.absorb("chains", st);
+    // `^` is the previous element of the DOCUMENT, also when that element (or the one using `^`) had to wait
+    // for a forward reference
+    let prev_docs: Vec<(&str, &str, BBox)> = vec![
+        ("prev-after-deferred/sibling", r##"<rect id="a" wh="10"/><rect id="c" xy="#b|h" wh="10"/><rect id="e" xy="^|v" wh="10"/><rect id="b" xy="50 50" wh="10"/>"##, BBox::xywh(60., 60., 10., 10.)),
+        ("prev-after-deferred/self", r##"<rect id="a" xy="5 5" wh="10"/><rect id="e" xy="^|h" wh="#b"/><rect id="b" xy="50 50" wh="4"/>"##, BBox::xywh(15., 8., 4., 4.)),
+        ("prev-after-deferred/group", r##"<g id="g"><rect xy="#b|h" wh="2"/><rect xy="0 0" wh="6"/></g><rect id="e" xy="^|v" wh="2"/><rect id="b" xy="50 50" wh="4"/>"##, BBox::xywh(27., 53., 2., 2.)),
+        ("prev-without-deferral/control", r##"<rect id="b" xy="50 50" wh="10"/><rect id="a" wh="10"/><rect id="c" xy="#b|h" wh="10"/><rect id="e" xy="^|v" wh="10"/>"##, BBox::xywh(60., 60., 10., 10.)),
+    ];
+    let st = run_space(prev_docs.len(), |i| verify(prev_docs[i].1, &[("e", prev_docs[i].2)], prev_docs[i].0, 1));
+    rep.absorb("previous-element", st);
     rep.assume("dependent elements are rect, circle and ellipse (their output geometry is directly observable); box/point/group/line occur as references only; relative sizes are asserted for rect dependents");
     rep.finish()
 }
